@@ -1354,9 +1354,21 @@ def ctpop(w, x):
 
 # ---------------------------------------------------------------- generic ops
 
+def _fold(t):
+    """constant-fold an interpreted operation whose operands are all constants"""
+    if all((not isinstance(x, tuple)) or x[0] == "const" for x in t[2:]):
+        try:
+            return const(t[1], ev(t, {"args": []}))
+        except Uneval:
+            return t
+        except Exception:
+            return t
+    return t
+
+
 def op(name, w, *args):
-    """uninterpreted (but named) operation: fadd, call:llvm.ctpop, ..."""
-    return mk(name, w, *args)
+    """named operation: fadd, call:llvm.ctpop, ... (constant-folded when interpreted)"""
+    return _fold(mk(name, w, *args))
 
 
 COMM_OPS = {"fadd", "fmul", "call:llvm.umin", "call:llvm.umax", "call:llvm.smin",
@@ -1366,6 +1378,8 @@ COMM_OPS = {"fadd", "fmul", "call:llvm.umin", "call:llvm.umax", "call:llvm.smin"
 def opc(name, w, a, b):
     if name in COMM_OPS and ser(a) > ser(b):
         a, b = b, a
+    if a[0] == "const" and b[0] == "const" and not name.startswith("f"):
+        return _fold(mk(name, w, a, b))
     return mk(name, w, a, b)
 
 
